@@ -47,6 +47,9 @@ def r07a(P, R):
                 msg = "only_child() is applied to a %s pair, whose child sequences have lengths %s (%s)" % (o["rule"], d.get("lengths"), o["msg"])
             elif o["kind"] == "all_children":
                 msg = "all_children() expects one child kind but a %s pair can also contain %s" % (o["rule"], d.get("others"))
+            elif o["kind"] == "ident":
+                msg = "an identifier/keyword is built from the whole text of a %s pair, which is not a single name token (its text includes " \
+                      "punctuation or trivia): the AST name differs from the name in the text" % o["rule"]
             else:
                 msg = "a match over as_rule() with a panicking fallback does not handle %s (%s)" % (d.get("unhandled"), o["msg"])
             R.violated("R07-a", key, msg, loc=o["loc"], detail=d)
